@@ -31,7 +31,7 @@ Definition only_main (p : mpc) : bool :=
   | MB_tail | MB_bound | MB_state | MB_head | MB_clr | MB_snap | MB_next | MB_run _ _ _ | MB_incall _ _ _ | MB_sig _ _
   | MB_fwake _ _ | MB_loop _ | MB_ret | MC_rmw | MC_clr | MC_tail | MC_susp | MC_head | MC_cbc _ | MC_xor | MC_flags
   | MC_push | MC_close | MC_gone => true
-  | _ => match kont p with Some KDrain => true | _ => false end
+  | _ => match kont p with Some KDrain | Some (KCall _ _ _) => true | _ => false end
   end.
 Definition mq_of (p : mpc) : option Z :=
   match p with
@@ -109,7 +109,7 @@ Definition mclass (p : mpc) : mcls :=
   | MC_cbc false => c true true true
   | MC_push | MC_close => l false
   | MC_gone => l true
-  | _ => match kont p with Some KDrain => d | _ => z end
+  | _ => match kont p with Some KDrain => d | Some (KCall i w more) => b more false (VIn i w) | _ => z end
   end.
 Definition bitem (c : mcls) : list Z := match c_view c with VRun i _ => [i] | _ => [] end.
 Definition brun (c : mcls) : option Z := match c_view c with VIn i _ => Some i | _ => None end.
